@@ -136,6 +136,12 @@ func (h *Hub) ServeHTTP(w http.ResponseWriter, r *http.Request) {
 	shipConnection.Run()
 
 	h.registerConnection(shipConnection)
+
+	// the request may have been on its way while the hub was shut down: Shutdown sets its flag
+	// before it collects the connections to close, so whatever it did not see gets closed here
+	if h.checkHasShutdown() {
+		shipConnection.CloseConnection(false, 0, "")
+	}
 }
 
 // return if there is a connection for a SKI
